@@ -121,7 +121,7 @@ func (dist *PoissonDistribution) SetParameters(parameters Vector) error {
 
 func (dist *PoissonDistribution) ImportConfig(config ConfigDistribution, t ScalarType) error {
 
-  if parameters, ok := config.GetParametersAsFloats(); !ok {
+  if parameters, ok := config.GetParametersAsFloats(); !ok || len(parameters) < 1 {
     return fmt.Errorf("invalid config file")
   } else {
     lambda := NewScalar(t, parameters[0])
